@@ -72,7 +72,7 @@ def explore(run, scale=1):
         if rec.get("host_vec_changed"):
             run.fail("host-vector", dict(source=rec["src"], seed=rec["seed"], index=rec["index"], opts=rec.get("opts"), maker=rec.get("maker"), fn=rec["fn"]),
                      "a vector argument object handed to Invoke was modified: %s" % rec["host_vec_changed"][:2], key="host-vector-modified")
-        p_c01.judge(run, rec, "C04")
+        p_c01.judge(run, rec, "C04", all_nontrivial=True)
 
 
 def search(run):
